@@ -75,6 +75,17 @@ class TlcResult(object):
                     raise MachineryError('bad verdict line %r: %s' % (l[:200], x))
         return out
 
+    def tagged(self, tag):
+        """JSON payloads of lines printed as PrintT(tag \\o " " \\o ToJson(x))"""
+        out = []
+        for l in self.out.splitlines():
+            if l.startswith('"' + tag + ' '):
+                try:
+                    out.append(json.loads(json.loads(l)[len(tag) + 1:]))
+                except Exception as x:
+                    raise MachineryError('bad %s line %r: %s' % (tag, l[:200], x))
+        return out
+
     def consumed(self):
         m = re.search(r'"CONSUMED (\d+)"', self.out)
         return int(m.group(1)) if m else None
@@ -118,7 +129,7 @@ def run_tlc(module, cfg_text=None, cfg=None, workers=NCPU, env=None, timeout=120
     return r
 
 
-def judge(module, records, shards=NCPU, timeout=1800, env=None, heap='3g', min_per_shard=1):
+def judge(module, records, shards=NCPU, timeout=1800, env=None, heap='3g', min_per_shard=1, tags=()):
     """C->S: shard `records` (list of JSON-able dicts, each with an 'id') over
     single-worker JVMs running trace spec `module`; return (verdicts, stats).
     Every shard must print CONSUMED <n> with n = its record count."""
@@ -164,6 +175,8 @@ def judge(module, records, shards=NCPU, timeout=1800, env=None, heap='3g', min_p
                                         % (module, k, r.consumed(), n, out[-3000:]))
             continue
         verdicts += r.verdicts()
+        for tag in tags:
+            st.setdefault(tag, []).extend(r.tagged(tag))
         st['states'] += r.distinct
         st['transitions'] += r.generated
     if err:
